@@ -305,8 +305,14 @@ impl IcmpActor {
             };
             let o = target.octets();
             // destination: solicited-node multicast (address resolution) or unicast (NUD)
-            let (dst, dmac, via) = match rng.below(6) {
-                0 | 1 | 2 => (
+            let (dst, dmac, via) = match rng.below(9) {
+                6 => {
+                    // unicast probe sent to another address than the one asked about
+                    let d = if !plan.targets6.is_empty() && rng.chance(1, 2) { *rng.pick(&plan.targets6) } else { *rng.pick(&plan.foreign6) };
+                    (d, plan.cfg.mac, "unicast-other-address")
+                }
+                7 => (*rng.pick(&plan.foreign6), plan.cfg.mac, "unicast-unhandled-address"),
+                0 | 1 | 2 | 8 => (
                     Ipv6Addr::new(0xff02, 0, 0, 0, 0, 1, 0xff00 | o[13] as u16, ((o[14] as u16) << 8) | o[15] as u16),
                     [0x33, 0x33, 0xff, o[13], o[14], o[15]],
                     "solicited-node",
